@@ -21,6 +21,7 @@ import (
 	"slices"
 	"strings"
 	"testing"
+	"time"
 
 	jose "github.com/go-jose/go-jose/v4"
 
@@ -42,7 +43,7 @@ func TestMain(m *testing.M) { engine.Main(m) }
 var typeNames = map[string]string{"access": ttAccess, "refresh": ttRefresh, "id": ttID, "jwt": ttJWT, "unknown": ttUnknown, "none": ""}
 
 var space = engine.Space{
-	engine.D("subj", "jwt-at", "opaque-at", "rt", "rt-web", "idt", "idt-web", "jwt-at-b", "idt-b", "expired-jwt-at", "expired-opaque-at", "expired-rt",
+	engine.D("subj", "jwt-at", "opaque-at", "rt", "rt-web", "idt", "idt-web", "at-xonly", "jwt-at-b", "idt-b", "expired-jwt-at", "expired-opaque-at", "expired-rt",
 		"expired-idt", "revoked-jwt-at", "revoked-opaque-at", "revoked-rt", "jwt-at-of-revoked-rt", "terminated-at", "terminated-rt", "idt-terminated",
 		"forged-key", "foreign-iss", "forged-sub", "garbage", "sealed-unknown", "sealed-3part", "sealed-1part", "ext", "missing"),
 	// auto = the type the subject token really has (access_token for strings that are nothing)
@@ -56,7 +57,7 @@ var space = engine.Space{
 	engine.D("policy", "default", "nodefault", "veto", "drop-profile", "imp", "imp-drop", "def-refresh", "def-id", "def-jwt"),
 	engine.D("audres", "none", "aud-api", "aud-api-other", "res", "aud-res"),
 	// how the caller presents credentials (see auths)
-	engine.D("auth", "webjwt", "web", "post", "assertion", "no-grant", "wrong-secret", "unknown", "none", "post-wrong", "bad-escape", "assertion-forged"),
+	engine.D("auth", "webjwt", "web", "post", "assertion", "xonly", "refresh-only", "no-grant", "wrong-secret", "unknown", "none", "post-wrong", "bad-escape", "assertion-forged"),
 	// form parameter client_id: auto = what the credential kind needs (the client's id for a POSTed secret, nothing otherwise)
 	engine.D("formcid", "auto", "absent", "own", "other", "unknown", "dup", "dup-rev"),
 	engine.D("caps", "all", "no-tv", "no-te"),
@@ -82,6 +83,8 @@ var auths = map[string]authSpec{
 	"web":              {self: "web", basicID: "web", basicSecret: "secret-web"},
 	"post":             {self: "web", formSecret: "secret-web", post: true},
 	"assertion":        {self: "jwt", assertion: 1},
+	"xonly":            {self: "xonly", basicID: "xonly", basicSecret: "secret-xonly"},             // registered for the exchange, NOT for the refresh_token grant
+	"refresh-only":     {self: "ronly", basicID: "ronly", basicSecret: "secret-ronly"},             // authenticated, registered for refresh_token but not for the exchange
 	"no-grant":         {self: "norefresh", basicID: "norefresh", basicSecret: "secret-norefresh"}, // authenticated, not registered for the grant
 	"wrong-secret":     {self: "webjwt", basicID: "webjwt", basicSecret: "secret-web"},             // another client's secret
 	"unknown":          {self: "ghost", basicID: "ghost", basicSecret: "secret-ghost"},
@@ -91,7 +94,7 @@ var auths = map[string]authSpec{
 	"assertion-forged": {self: "jwt", assertion: 2},
 }
 
-var registered = rig.DefaultConfig().Clients
+var registered = newCfg().Clients
 
 func otherClient(self string) string {
 	if self == "webjwt" {
@@ -314,7 +317,7 @@ func judge(in *input) *expectation {
 		return refuse("client-unauthenticated")
 	}
 	// ... acting through a grant registered for it (DESIGN 2/C15 alphabet "no exchange grant"; C05)
-	if !slices.Contains(registered[in.clientID].Grants, oidc.GrantTypeTokenExchange) {
+	if !hasGrant(in.clientID, oidc.GrantTypeTokenExchange) {
 		return refuse("client-without-grant")
 	}
 	switch {
@@ -376,6 +379,11 @@ func judge(in *input) *expectation {
 	// "or a storage veto"
 	if in.policy.Veto {
 		return refuse("veto")
+	}
+	if e.eff == ttRefresh && !hasGrant(in.clientID, oidc.GrantTypeRefreshToken) {
+		// a client that could not redeem it: refusing is fine, so is handing out a live refresh token -
+		// answering issued_token_type refresh_token WITHOUT one is not (probe)
+		soft = append(soft, "refresh-token-for-client-without-refresh-grant")
 	}
 	// what the policy decides
 	e.subject = in.subj.sub
@@ -692,13 +700,13 @@ func (k *worker) probe(r *rig.Rig, in *input, exp *expectation, body map[string]
 			return "refresh-missing", "issued_token_type refresh_token but no refresh_token in the response"
 		}
 		rec := r.Core.St.Refreshes[rt]
-		if rec == nil {
-			return "refresh-not-live", "refresh_token unknown to the storage"
+		if rec == nil || !time.Now().Before(rec.Exp) {
+			return "refresh-not-live", "refresh_token unknown to the storage or expired"
 		}
 		if rec.Subject != exp.subject || !sameSet(rec.Scopes, exp.scopes) || rec.ClientID != in.clientID {
 			return "refresh-content", fmt.Sprintf("stored refresh token: sub %q scopes %q client %q; expected %q %q %q", rec.Subject, rec.Scopes, rec.ClientID, exp.subject, exp.scopes, in.clientID)
 		}
-		if cl := r.Core.Cfg.Clients[in.clientID]; cl != nil && slices.Contains(cl.Grants, oidc.GrantTypeRefreshToken) {
+		if hasGrant(in.clientID, oidc.GrantTypeRefreshToken) {
 			rform := url.Values{"grant_type": {"refresh_token"}, "refresh_token": {rt}}
 			rr := r.Do(in.router, hreq(in.host, "POST", "/oauth/token", rform, clientAuth(rform)))
 			nat := rr.Str("access_token")
@@ -738,10 +746,12 @@ func (k *worker) probe(r *rig.Rig, in *input, exp *expectation, body map[string]
 
 func TestCheck(t *testing.T) {
 	c := engine.Start(t, "C15")
-	c.SetRule("E1 part exchange: full products {subject kind x declared type x requested type x router}, {actor kind x actor type x requested type x router}, {requested type x storage policy x scopes x router}, {credentials x subject kind x router}, {parameter channel x credentials x form client_id x router}, each crossed with every <=k deviations (quick 1, thorough 2) of all other dimensions, plus {requested type x router} crossed with every <=k+1 deviations of all other dimensions (subject, declared, actor, actor type, requested, scopes, policy, audience/resource, credentials, form client_id, storage capabilities, parameter channel, virtual host, router); every vector = one real token-exchange POST on a clone of the state prepared by real flows, in a synctest bubble, on a provider with a request-derived issuer (two virtual hosts); 200 answers are probed with userinfo / introspection / refresh / rp+op ID-token verification. E1 part pairs: histories of two exchanges (first, second) on a FRESH provider, full products {first subject x first host x second subject x second host x router} and {first credentials x second credentials x second subject x router} with <=k-1 deviations of the rest; both answers judged by the same model, the second additionally compared with the answer the same request gets as the first of a history; distinct = (oracle rule, observed outcome class)")
+	c.SetRule("E1 part exchange: full products {subject kind x declared type x requested type x router}, {actor kind x actor type x requested type x router}, {requested type x storage policy x scopes x router}, {credentials x subject kind x router}, {parameter channel x credentials x form client_id x router}, each crossed with every <=k deviations (quick 1, thorough 2) of all other dimensions, plus {requested type x router} crossed with every <=k+1 deviations of all other dimensions (subject, declared, actor, actor type, requested, scopes, policy, audience/resource, credentials, form client_id, storage capabilities, parameter channel, virtual host, router); every vector = one real token-exchange POST on a clone of the state prepared by real flows, in a synctest bubble, on a provider with a request-derived issuer (two virtual hosts); 200 answers are probed with userinfo / introspection / refresh / rp+op ID-token verification. E1 part vetoes: full product {subject (5) x requested type (4) x credentials (5) x error kind (OAuth error / plain error) x journal position (12) x router} with <=k deviations of actor, scopes, policy default type and storage capabilities: the fault-free execution's storage journal is taken and the request repeated with the storage refusing exactly the call at that position; any refused call must give an OAuth error document, never a 200. E1 part pairs: histories of two exchanges (first, second) on a FRESH provider, full products {first subject x first host x second subject x second host x router} and {first credentials x second credentials x second subject x router} with <=k-1 deviations of the rest; both answers judged by the same model, the second additionally compared with the answer the same request gets as the first of a history; distinct = (oracle rule, observed outcome class)")
 	c.Assume("refstore is the trusted storage (liveness of exchanged token ids in ValidateTokenExchangeRequest; ID tokens are not tracked)",
 		"authenticated client = the client a valid credential (Basic secret, POSTed secret with its client_id, private_key_jwt assertion) was presented for; a form client_id beside header/assertion credentials never changes it",
 		"a client not registered for the token-exchange grant must be refused (DESIGN 2/C15 alphabet; C05) - in every parameter channel",
+		"Either: requested (or policy-default) type refresh_token for a client not registered for the refresh_token grant - refusal or a 200 that really contains a live refresh token",
+		"storage veto = any storage call of the exchange answered with an error (refstore fault plan), at every position of the fault-free journal",
 		"Either: a provider-signed JWT presented under another JWT-based type name (JWT access token as id_token/jwt, ID token as access_token/jwt) - the library's JWTs carry no type marker and refstore does not look into id_token subjects",
 		"Either: provider-signed JWT naming a live token id with another subject (refstore does not pair id and subject)",
 		"Either: ID token of a session ended through end_session (ID tokens are not tracked); opaque access token / refresh token handed out under the other virtual host (they name no issuer)",
@@ -773,6 +783,17 @@ func TestCheck(t *testing.T) {
 			return wk.run
 		},
 	})
+	c.RunE1(engine.E1{
+		Part:   "vetoes",
+		Space:  vetoSpace,
+		Groups: [][]string{{"subj", "requested", "auth", "err", "hook", "router"}},
+		Ks:     []int{k}, // deviations of actor, scopes, policy default type, storage capabilities
+		NewWorker: func(int) func(engine.Vec) engine.Result {
+			wk := newWorker(t, w)
+			return wk.runVeto
+		},
+	})
+	c.Extra("vetoes_longest_fault_free_journal", w.maxJournal.Load())
 	kp := engine.Pick(c, 0, 1)
 	c.RunE1(engine.E1{
 		Part:  "pairs",
